@@ -496,19 +496,15 @@ def simplify_ops(ops, fires):
     return ops
 
 
-def extra_coverage(results, prop):
-    pairs = set()
+def extra_coverage(total, prop):
+    pairs = set(total.get("pairs", ()))
     kernels = set()
-    lifetimes = 0
-    for r in results:
-        for a, b in r.get("pairs", []):
-            pairs.add((tuple(a), tuple(b)))
-            kernels.add(tuple(a))
-            kernels.add(tuple(b))
-        lifetimes += r.get("opcount", {}).get("lifetimes", 0)
+    for a, b in pairs:
+        kernels.add(a)
+        kernels.add(b)
     universe = len(set(KERNEL.values())) * len(DTYPES_QUICK)
     return {
-        "lifetimes": lifetimes,
+        "lifetimes": total.get("opcount", {}).get("lifetimes", 0),
         "ordered_first_use_pairs_covered": len(pairs),
         "ordered_first_use_pairs_universe": universe * (universe - 1),
         "kernel_signatures_seen": len(kernels),
